@@ -373,7 +373,7 @@ func genStub(pkg LabPkg, code string) (string, error) {
 	for _, d := range p.file.Decls {
 		switch x := d.(type) {
 		case *ast.FuncDecl:
-			if x.Recv == nil && ((strings.HasPrefix(x.Name.Name, "New") && strings.Contains(x.Name.Name, "Request")) || (strings.HasPrefix(x.Name.Name, "Parse") && strings.HasSuffix(x.Name.Name, "Response"))) {
+			if x.Recv == nil && ((strings.HasPrefix(x.Name.Name, "New") && strings.Contains(x.Name.Name, "Request")) || (strings.HasPrefix(x.Name.Name, "Parse") && strings.HasSuffix(x.Name.Name, "Response")) || x.Name.Name == "GetSwagger") {
 				funcs = append(funcs, x.Name.Name)
 			}
 		case *ast.GenDecl:
